@@ -28,7 +28,7 @@ TECHNIQUE = ('property-based testing (Hypothesis) plus an exhaustive '
              'calibration against hand-written reference build files')
 RULE = ('Path components over printable ASCII incl. space and \' " $ # % & ( '
         ') * ? [ ] : , @ ! + ~ { } ; = | < > ^ ` (no / or \\, no leading '
-        'one-letter-plus-colon, not . or ..), length 1-6, in sixteen roles '
+        'one-letter-plus-colon, not . or ..), length 1-6, in seventeen roles '
         '(source, header, exe/build_step/two-output build_step/copy_file output, '
         '120 copy_file outputs at once, '
         'output directory, '
@@ -51,7 +51,7 @@ LEVEL_NOTE = ('Trusted: GNU Make 4.3, the reference Ninja evaluator (not '
 ASSUMPTIONS = ['the header role additionally excludes " (C include syntax)']
 
 ROLES = ['source', 'topobj', 'objhdr', 'header', 'exe', 'step', 'multistep',
-         'copy', 'bulk',
+         'copy', 'linkto', 'bulk',
          'outdir',
          'submodule',
          'findfile', 'finddir', 'walkdir', 'incdir', 'gincdir']
@@ -243,6 +243,17 @@ def render(role, n, src):
         w(os.path.join(src, 'build.bfg'),
           "o = copy_file({!r}, 'in.dat')\ndefault(o)\n".format(n + '.dat'))
         return [('B', n + '.dat')], ('S', 'in.dat'), [('B', n + '.dat')]
+    if role == 'linkto':
+        # a symbolic link in a sub-directory pointing to the named source
+        # file and one named like it pointing to another file
+        w(os.path.join(src, n + '.dat'), 'x\n')
+        w(os.path.join(src, 'plain.dat'), 'y\n')
+        w(os.path.join(src, 'build.bfg'),
+          "a = copy_file('links/to.lnk', {!r}, mode='symlink')\n"
+          "b = copy_file({!r}, 'plain.dat', mode='symlink')\n"
+          "default(a, b)\n".format(n + '.dat', 'links/' + n + '.lnk'))
+        return ([('B', 'links/to.lnk'), ('B', 'links/' + n + '.lnk')],
+                ('S', n + '.dat'), [])
     if role == 'bulk':
         # many outputs with the name (anything that treats long lists of
         # files differently from short ones)
